@@ -122,7 +122,7 @@ func symCalendarObject(i int) CalendarObject {
 		Data:          verifValidCalendar(),
 	}
 	if vrt.Choose(tag+"-hasmodtime", 2) == 1 {
-		co.ModTime = vrt.Time(tag + "-modtime")
+		co.ModTime = vrt.TimeIn(tag+"-modtime", vrt.Choose(tag+"-zone", 3))
 	}
 	co.Data.Children[0].Props.SetText(ical.PropUID, "uid-"+strconv.Itoa(i))
 	return co
@@ -349,7 +349,7 @@ func VerifH_C10_GetPut() {
 	}
 	be.putResult = &CalendarObject{Path: storedPath, ETag: vrt.Text("stored-etag")}
 	if vrt.Choose("stored-hasmodtime", 2) == 1 {
-		be.putResult.ModTime = vrt.Time("stored-modtime")
+		be.putResult.ModTime = vrt.TimeIn("stored-modtime", vrt.Choose("stored-zone", 3))
 	}
 	// the caller may name the resource relative to the client's endpoint
 	given := putPath
